@@ -51,7 +51,13 @@ var Catalogue = []string{
 }
 
 // MetaCatalogue: create-metadata lookups.
-var MetaCatalogue = [][2]string{{"origin", "seed-0"}, {"origin", "nowhere"}}
+var MetaCatalogue = [][2]string{{"origin", "seed-0"}, {"origin", "nowhere"}, {MetaKey, MetaValue}}
+
+// MetaKey / MetaValue is what the setmeta action puts on the create operation of a bug.
+const (
+	MetaKey   = "tracker-id"
+	MetaValue = "exported"
+)
 
 func guard(v View, key string, f func() string) {
 	defer func() {
@@ -147,6 +153,11 @@ func ComputeView(c *cache.RepoCache) (v View, staged bool) {
 			}
 			v["bug-resolve.comments"+p] = strings.Join(cs, "\n")
 			v["bug-resolve.rendered"+p] = world.RenderSnapshot(snap)
+			if opId, err := b.ResolveOperationWithMetadata(MetaKey, MetaValue); err != nil {
+				v["bug-resolve.op-with-metadata"+p] = "error: " + err.Error()
+			} else {
+				v["bug-resolve.op-with-metadata"+p] = string(opId)
+			}
 			return "ok"
 		})
 	}
